@@ -280,4 +280,8 @@ def lowByte (x : UInt8) : Bool := decide (x < 128)
 def mergeVerdict (a b m : Bytes) : Bool :=
   m.filter lowByte == a && m.filter (fun x => !lowByte x) == b
 
+/-- the two argv elements `-o` and `EscapeChar=none` -/
+def dashO : Bytes := [45, 111]
+def escapeCharNone : Bytes := [69, 115, 99, 97, 112, 101, 67, 104, 97, 114, 61, 110, 111, 110, 101]
+
 end Scrapli.Pipe
